@@ -70,7 +70,14 @@ pub fn pretty_print(
 /// Extract comments at the start of the file (before any non-trivia token)
 fn extract_file_leading_comments(source: &str, tokens: &[Token]) -> String {
     let mut output = String::new();
-    for token in tokens {
+    // The preparser drops the trivia in front of the first token only up to the last line break; what
+    // follows that line break is leading trivia of the first token and is printed with it.
+    let leading_len = tokens.iter().take_while(|t| t.is_trivia()).count();
+    let dropped_len = tokens[..leading_len]
+        .iter()
+        .rposition(|t| t.kind == TokenKind::LineBreak)
+        .map_or(0, |i| i + 1);
+    for token in &tokens[..dropped_len] {
         if token.is_trivia() {
             if matches!(
                 token.kind,
